@@ -129,6 +129,7 @@ func (vm *VM) ImportParseResult(src string) Value {
 		defer func() {
 			if r := recover(); r != nil {
 				// the native parser itself panicked: surface it as a Go panic of the code under test
+				vm.stack = append(vm.stack, RepoModule+"/internal/parser.Parse")
 				vm.goPanic("native parser panic: " + describeAny(r))
 			}
 		}()
